@@ -405,6 +405,11 @@ def _implementedBy_super(sup):
     except KeyError:
         pass
 
+    mro = sup.__self_class__.__mro__
+    if mro.index(key) + 1 >= len(mro):
+        # ``super(object, ob)``: no class is left, nothing is implemented.
+        return _empty
+
     next_cls = _next_super_class(sup)
     # For ``implementedBy(cls)``:
     # .__bases__ is .declared + [implementedBy(b) for b in cls.__bases__]
